@@ -695,6 +695,33 @@ theorem loaderInit_spec (format : String) (protein : Bool) :
   · intro h1 h2 h3 h4
     simp [loaderInit, h1, h2, h3, h4]
 
+/-- C17, `load` on a file object that passes the `read(0)` probe and fails afterwards: the outcome is the
+    exception of the file object (or the `ValueError` of the format), raised by `load` itself exactly when
+    the reader of that format reads while it is created and the exception is a pending Python exception;
+    otherwise `load` succeeds and the first record raises it.  In no case is a result returned with an
+    exception pending (the model has no such outcome: `Res` is a value or ONE exception). -/
+theorem loaderInit_lateBad (e : Exc) (format : String) (protein : Bool)
+    (hf : format = "jaspar" ∧ protein = false ∨ format = "jaspar16" ∨ format = "transfac" ∨ format = "uniprobe") :
+    (loaderInit (.lateBad e) format protein = .error e ∧ e ≠ .osError ∧ readsAtCreation format = true) ∨
+    (loaderInit (.lateBad e) format protein = loaderInit .binary format protein ∧
+      (e = .osError ∨ readsAtCreation format = false) ∧ convertRecord format (.errPy e) = .error e) := by
+  rcases hf with ⟨rfl, rfl⟩ | rfl | rfl | rfl <;> cases e <;> cases protein <;> decide
+
+/-- an unknown format (or a protein JASPAR file) is a `ValueError` before anything is read -/
+theorem loaderInit_lateBad_format (e : Exc) (format : String) (protein : Bool) :
+    loaderInit .binary format protein = .error .valueError →
+    loaderInit (.lateBad e) format protein = .error .valueError := by
+  intro h
+  by_cases h1 : format = "jaspar"
+  · subst h1; cases protein <;> simp_all [loaderInit]
+  by_cases h2 : format = "jaspar16"
+  · subst h2; simp [loaderInit] at h
+  by_cases h3 : format = "transfac"
+  · subst h3; simp [loaderInit] at h
+  by_cases h4 : format = "uniprobe"
+  · subst h4; simp [loaderInit] at h
+  simp [loaderInit, h1, h2, h3, h4]
+
 /-- C17, records: a parsed record becomes `Motif::from_counts(record counts)` (JASPAR, JASPAR16, TRANSFAC)
     or `Motif::from_weights(frequencies.to_weight(None))` (UniPROBE); reader errors are `ValueError`
     (`OSError` for I/O), a TRANSFAC record without a count matrix is a `ValueError` -/
